@@ -24,10 +24,10 @@ func init() {
 			cost = 10
 		}
 		type kp struct {
-			pk      kem.PublicKey
-			sk      kem.PrivateKey
+			pk       kem.PublicKey
+			sk       kem.PrivateKey
 			pkb, skb []byte
-			ct      []byte
+			ct       []byte
 		}
 		var kps []kp
 		for i := 0; i < 2; i++ {
@@ -126,7 +126,7 @@ func init() {
 			// layout: role(1) kem(2) kdf(2) aead(2) then four uint8-length-prefixed fields
 			lf := [][2]int{{7, 1}, {7 + 1 + 32, 1}, {7 + 1 + 32 + 1 + 16, 1}, {7 + 1 + 32 + 1 + 16 + 1 + 12, 1}}
 			Register(
-				Entry{Name: "hpke.UnmarshalSealer", Group: "hpke", LenFields: lf,
+				Entry{Name: "hpke.UnmarshalSealer", Group: "hpke", LenFields: lf, IDFields: []int{1, 3, 5},
 					Call: func(b []byte) {
 						if s, err := hpke.UnmarshalSealer(b); err == nil && s != nil {
 							_, _ = s.Seal([]byte("x"), nil)
@@ -134,7 +134,7 @@ func init() {
 						}
 					},
 					Valid: func(int) []byte { return rawS }},
-				Entry{Name: "hpke.UnmarshalOpener", Group: "hpke", LenFields: lf,
+				Entry{Name: "hpke.UnmarshalOpener", Group: "hpke", LenFields: lf, IDFields: []int{1, 3, 5},
 					Call: func(b []byte) {
 						if o, err := hpke.UnmarshalOpener(b); err == nil && o != nil {
 							_, _ = o.Open(ct, []byte("aad"))
